@@ -468,7 +468,7 @@ func TestCurvesUintsArith(t *testing.T) {
 func TestCurvesUintsLogic(t *testing.T) {
 	rec := ev.Get(ID)
 	rec.SetRule(ruleCurves)
-	rec.Check(t, "gadget", ev.N(36, 1600), func(rt *rapid.T) {
+	rec.Check(t, "gadget", ev.N(24, 1600), func(rt *rapid.T) {
 		c := genUintsCase(rt, "bn254", logicMasks(), []int{32, 64})
 		c.Mode = genMode(rt, 40)
 		if ev.Tier() == "quick" && c.Mode != "engine" {
